@@ -70,6 +70,10 @@ def p1_extract_member(chk):
             I.oblige("only_RuntimeError_or_OSError", out.raised("RuntimeError") or out.raised("OSError"))
             if out.raised("RuntimeError"):
                 I.oblige("rejected_member_leaves_nothing", len(eff) == 0)
+                # no false rejection (an archive the writer produced must stay readable: C14): a member is rejected only
+                # if its normalised target is not below the destination
+                tp = I.call(ex.models["os.path.normpath"], [I.call(ex.models["os.path.join"], [dstdir, filename], {})], {})
+                I.oblige("rejected_only_if_the_target_is_outside", z3.Not(z3.PrefixOf(dstdir.z, z3_of(tp))))
         # escaping members are rejected: if the normalised target is outside, nothing was written
         I.cover("end")
 
